@@ -150,6 +150,7 @@ def concurrent_plan(tier, only_full=False):
     if not only_full:
         plan += [
             ('crelindex_ops_le2', triples(2, '0-1', v2) + ';' + triples(2, '0-1', '1'), 'CRelIndex: all pairs of indices built from <= 2 inserts (both insertion paths); freeze/unfreeze; move_index_contents'),
+            ('ccombined_ops_le2', triples(2, '0-1', v2) + ';' + triples(2, '0-1', '1'), 'RelIndexCombined over two frozen CRelIndex: serial and parallel lookup / iteration see the entries of both'),
             ('crelindex_merge_le1', ';'.join([triples(1, '0-1', v2)] * 3), 'CRelIndex: all triples (new, delta, total) of indices with <= 1 entry: default merge'),
             ('clatindex_ops_le2', triples(2, '0-1', v2) + ';' + triples(2, '0-1', '1'), 'CLatIndex: all pairs of indices built from <= 2 inserts; freeze/unfreeze; move_index_contents'),
             ('cnoindex_ops_le2', triples(2, '0', v2) + ';' + triples(2, '0', v2), 'CRelNoIndex: all pairs of <= 2 rows (both insertion paths); move_index_contents'),
